@@ -1,8 +1,10 @@
 package checks
 
 import (
+	"encoding/json"
 	"errors"
 	"fmt"
+	"github.com/trustbloc/sidetree-go/pkg/document"
 	"runtime"
 	"sort"
 	"strings"
@@ -61,6 +63,7 @@ type c20Env struct {
 	reg     *clientregistry.Registry
 	verp    *verprovider.ClientVersionProvider
 	multi   *verprovider.ClientVersionProvider // three versions with different genesis times
+	cfg     *vcommon.ProtocolConfig            // ONE configuration object (and method-context slice) handed to every CreateClientVersion call
 }
 
 func newC20Env() (*c20Env, error) {
@@ -76,6 +79,9 @@ func newC20Env() (*c20Env, error) {
 		return nil, err
 	}
 	e.reg = clientregistry.New()
+	// the list repeats an entry and names the main DID context: whatever the library makes of that, it makes a copy for itself
+	e.cfg = &vcommon.ProtocolConfig{EnableBase: true, MethodContext: append(make([]string, 0, 8), "https://w3id.org/did/method/v1", "https://www.w3.org/ns/did/v1",
+		"https://example.org/ctx", "https://w3id.org/did/method/v1", "https://example.org/ctx2")}
 	v, err := e.reg.CreateClientVersion("1.0", &vcommon.ProtocolConfig{EnableBase: true})
 	if err != nil {
 		return nil, err
@@ -303,6 +309,30 @@ func c20Calls(r *fw.Rand, n int) []c20Call {
 				return resStr(nil, err)
 			}
 			return "version:" + v.Version() + fmt.Sprint(v.Protocol().MaxOperationSize)
+		}})
+		// client versions created from the one shared configuration object, and what their transformer emits as @context
+		calls = append(calls, c20Call{"clientregistry", func(e *c20Env, keep keepFn) string {
+			v, err := e.reg.CreateClientVersion("1.0", e.cfg)
+			if err != nil {
+				return resStr(nil, err)
+			}
+			rm := &protocol.ResolutionModel{Doc: document.Document{}, RecoveryCommitment: "r", UpdateCommitment: "u"}
+			res, err := v.DocumentTransformer().TransformDocument(rm, protocol.TransformationInfo{"id": "did:ion:EiShared", "published": true})
+			if err != nil {
+				return resStr(nil, err)
+			}
+			b, _ := json.Marshal(res.Document["@context"])
+			return "ctx:" + string(b)
+		}})
+		calls = append(calls, c20Call{"didtransformer", func(e *c20Env, keep keepFn) string {
+			tr := didtransformer.New(didtransformer.WithMethodContext(e.cfg.MethodContext), didtransformer.WithBase(true))
+			rm := &protocol.ResolutionModel{Doc: document.Document{}, RecoveryCommitment: "r", UpdateCommitment: "u"}
+			res, err := tr.TransformDocument(rm, protocol.TransformationInfo{"id": "did:ion:EiShared2", "published": true})
+			if err != nil {
+				return resStr(nil, err)
+			}
+			b, _ := json.Marshal(res.Document["@context"])
+			return "ctx:" + string(b)
 		}})
 	}
 	return calls[:n]
